@@ -1,17 +1,17 @@
-/- REGENERATED from /repo on every run by tools/run.py (harness/gen). Do not edit. -/
+/- REGENERATED from /repo on every run by tools/run.py (`verif-core consts`). Do not edit. -/
 namespace Hy.Gen
 def FrameTypeTCPRequest : Nat := 1025
 def MaxAddressLength : Nat := 2048
+def MaxDatagramFrameSize : Nat := 1200
 def MaxMessageLength : Nat := 2048
 def MaxPaddingLength : Nat := 4096
-def MaxDatagramFrameSize : Nat := 1200
 def MaxUDPSize : Nat := 4096
-def tcpRequestPaddingMin : Nat := 64
-def tcpRequestPaddingMax : Nat := 512
-def tcpResponsePaddingMin : Nat := 128
-def tcpResponsePaddingMax : Nat := 1024
-def authRequestPaddingMin : Nat := 256
 def authRequestPaddingMax : Nat := 2048
-def authResponsePaddingMin : Nat := 256
+def authRequestPaddingMin : Nat := 256
 def authResponsePaddingMax : Nat := 2048
+def authResponsePaddingMin : Nat := 256
+def tcpRequestPaddingMax : Nat := 512
+def tcpRequestPaddingMin : Nat := 64
+def tcpResponsePaddingMax : Nat := 1024
+def tcpResponsePaddingMin : Nat := 128
 end Hy.Gen
